@@ -10,6 +10,8 @@ CONSTANTS
   PenaltySet = {1, 2, 4}
   KSet = {1, 2}
   PreSet = {0, 1}
+  PostSet = {0}
+  TransOn = FALSE
   Depth = 26
   InitDESet = {0, 1, 2}
   MaxPerBlock = 4
